@@ -55,7 +55,7 @@ func init() {
 			{Funcs: `^message\.(Decode|decode)`, Classes: safetyClasses},
 			{Funcs: `^\(\*frame\.codec\)\.(DecodeFrame|DecodeRawFrame|DecodeHeader|DecodeBody|DecodeRawBody|DiscardBody|ConvertFromRawFrame)$`, Classes: safetyClasses},
 			{Funcs: `^\(\*segment\.codec\)\.(DecodeSegment|decodeSegmentHeader|decodeSegmentPayload)$`, Classes: safetyClasses},
-			{Funcs: `^crc\.`, Classes: safetyClasses},
+			{Funcs: `^crc\.`, Except: `\.lemma[A-Z]|^crc\.crc24Ref$`, Classes: safetyClasses},
 			{Funcs: `^\(compression/(lz4|snappy)\.Compressor\)\.Decompress`, Classes: safetyClasses},
 			{Funcs: `^compression/(lz4|snappy)\.(decompress|bufferFromReader)$`, Classes: safetyClasses},
 			{Funcs: `^datacodec\.read[A-Z]`, Classes: safetyClasses},
@@ -162,18 +162,24 @@ func init() {
 			{Funcs: `^primitive\.(Write|LengthOf)[A-Za-z]+$`, OnlyCt: true, Classes: c03Classes},
 			{Funcs: `^\(\*frame\.codec\)\.(uncompressedBodyLength|encodeBodyUncompressed|EncodeHeader|encodeFrameUncompressed|EncodeRawFrame)$`, OnlyCt: true, Classes: c03Classes},
 			{Funcs: `^message\.lemmaLen[A-Za-z]+$|^message\.lemmaDecodeLen[A-Za-z]+$`, OnlyCt: true, Classes: c03Classes},
+			// RESULT: columns metadata (fold over the column specifications), the codec's closed forms per kind (nested
+			// folds over rows and cells); REGISTER: the string-list copy of the event types
+			{Funcs: `^message\.(encodeColumnsMetadata|lengthOfColumnsMetadata|asStringList)$|^\(\*message\.resultCodec\)\.(Encode|EncodedLength)$`, OnlyCt: true, Classes: c03Classes},
 			// implementers refine the interface contract Error.GetErrorMessage (each returns its own field)
 			{Funcs: `^\(\*message\.[A-Za-z]+\)\.GetErrorMessage$`, Classes: []string{"post", "cover"}},
 			// type descriptors ([option]): per-kind writer/length pairs and the top-level agreement lemma
 			{Funcs: `^datatype\.(write|lengthOf)(Custom|List|Set|Map)Type$|^datatype\.lemmaDataTypeLen$`, OnlyCt: true, Classes: c03Classes},
+			{Funcs: `^\(\*datatype\.[A-Za-z]+\)\.Code$`, Classes: []string{"post", "cover"}},
+			{Funcs: `^\(\*message\.eventCodec\)\.(Encode|EncodedLength)$`, OnlyCt: true, Classes: c03Classes},
 			// an empty compressed body is exactly 5 bytes on the wire and the reader consumes all 5
 			{Funcs: `^\(compression/lz4\.Compressor\)\.DecompressWithLength$`, OnlyCt: true, Classes: c03Classes},
 		},
 		Assume: []string{
 			"ASSUMED, not proved: for the map-typed notations ([string map], [string multimap], [bytes map], named values) the writer and the length function agree (both range over a Go map; tied to one abstract length)",
-			"encLen(codec, message, version): the frame-level statements use one abstract length per (codec, message, version); it is discharged per codec by lemma functions that execute Encode and EncodedLength on the same message - for 13 of the 17 codecs (STARTUP, OPTIONS, READY, AUTHENTICATE, AUTH_CHALLENGE, AUTH_RESPONSE, AUTH_SUCCESS, SUPPORTED, QUERY, PREPARE, EXECUTE, REVISE, ERROR); BATCH, RESULT, REGISTER and EVENT are NOT under proof; the reason map of the failure errors is tied to one abstract length by assumption",
+			"encLen(codec, message, version): the frame-level statements use one abstract length per (codec, message, version); it is discharged per codec: RESULT and EVENT by closed-form postconditions per message kind on Encode and on EncodedLength (nested fold invariants over rows and cells, fold over column specifications) plus one lemma per kind; REGISTER by a contract for its string-list copy (fold frame axiom: a fold over a prefix does not depend on later elements - a stated mathematical fact); ERROR by one clause per kind (15: all but READ_FAILURE, WRITE_FAILURE, FUNCTION_FAILURE); STARTUP, OPTIONS, READY, AUTHENTICATE, AUTH_CHALLENGE, AUTH_RESPONSE, AUTH_SUCCESS, SUPPORTED, PREPARE, REVISE by lemma functions executing both bodies; every lemma has reachability covers for its own statements",
+			"NOT decided (session 4: these lemmas had become vacuous through a model assumption; repaired, they are not decided within the budget and are marked not claimed): QUERY, EXECUTE, BATCH, and the agreement of encodeRowsMetadata/encodeVariablesMetadata with their length functions - RESULT Prepared/Rows therefore rest on ONE ASSUMED abstract length per metadata object; the reason map of the failure errors is tied to one abstract length by assumption",
 			"body length fits a signed 32-bit integer (precondition of encodeFrameUncompressed / EncodeRawFrame); messages are not modified while being encoded",
-			"type descriptors: custom, list, set and map writer/length pairs are proved against one abstract length per descriptor (dtLen), and a lemma executes WriteDataType and LengthOfDataType on the same descriptor; user-defined types and tuples (loops over field types) are tied to one abstract length each by ASSUMPTION",
+			"type descriptors: custom, list, set and map writer/length pairs are proved against one abstract length per descriptor (dtLen); DataType.Code is a function of the descriptor (interface contract refined by all seven implementers); a lemma executes WriteDataType and LengthOfDataType on the same descriptor, decided per kind for custom, list, set, map and user-defined types - NOT for primitive types and tuples; user-defined types and tuples (loops over field types) are tied to one abstract length each by ASSUMPTION",
 			"decoder half, per codec: Decode consumes exactly EncodedLength(decoded message) bytes for AUTHENTICATE, AUTH_RESPONSE, AUTH_CHALLENGE, AUTH_SUCCESS, OPTIONS, READY, REVISE and 15 ERROR kinds (all but the failure errors with reason maps and FUNCTION_FAILURE) - lemma functions running the real Decode and then the real EncodedLength; other codecs and the frame level (DecodeFrame consumes header + BodyLength) are not covered (C05 covers the raw operations); for compressed bodies only the LZ4 empty-message format (5 bytes, all consumed) is stated",
 		}})
 }
